@@ -162,6 +162,12 @@ func (ex *Exec) afterOsCall() {
 	ex.st = b
 }
 
+// fileBytes: the content of the file at a path (assumed stable during the run)
+func (ex *Exec) fileBytes(path Term, bs *Sort) Term {
+	f := ex.U.DeclareFun("fileBytes", []*Sort{SString}, bs)
+	return Term{app(f.Name, path), bs}
+}
+
 func (ex *Exec) isCmdPkg() bool { return strings.Contains(ex.F.Pkg.PkgPath, "/cmd") }
 
 func (ex *Exec) osModel(full string, c *ast.CallExpr, args []Term) ([]Term, bool) {
@@ -193,6 +199,10 @@ func (ex *Exec) osModel(full string, c *ast.CallExpr, args []Term) ([]Term, bool
 		}
 		ex.st.ghost["stdout"] = ex.U.Fresh("stdout", SString)
 		return sigRes(), true
+	case "io/ioutil.ReadFile", "os.ReadFile":
+		rs := sigRes()
+		ex.fact(Implies(Eq(rs[1], Term{"nilAny", SAny}), Eq(rs[0], ex.fileBytes(args[0], rs[0].Sort))))
+		return rs, true
 	case "os.Stat":
 		rs := sigRes()
 		f := ex.U.DeclareFun("errIsNotExist", []*Sort{SAny}, SBool)
